@@ -15,13 +15,13 @@
    upstream in Ipv4.listen_bindings.  Header bytes and checksums are not modelled (C08/C18); a segment is
    a record.  No ARP (Ipv4::listen's call into Arp is skipped; the scenarios have none).
 
-   Locks ARE modelled where they decide behaviour: Tcp::demux looks the listen binding up with
-   `DashMap::entry` (a shard WRITE lock) and, while the vacant entry of the exact key is still alive (the
-   scrutinee of the outer `match` lives to the end of the statement, tcp.rs:144-168), calls `entry` again
-   for (0.0.0.0, port) (tcp.rs:151).  When both keys live in the same shard the thread blocks on its own
-   lock for ever.  Which keys share a shard depends on FxHash and on the number of shards (4 x CPUs, rounded
-   up to a power of two), so it is an INPUT of the model: `collide` = "the destination endpoint and
-   (0.0.0.0, port) share a shard" (always true when the destination address is 0.0.0.0 itself). *)
+   The model follows the code after the repairs b7a73ede (Tcp::demux looks the listen bindings up with
+   `get`; before, it called `entry` for (0.0.0.0, port) while the vacant entry of the exact key still held
+   the shard's write lock, and blocked on its own lock when both keys shared a DashMap shard) and ba8dc528
+   (segment_arrives_closed acknowledges SEG.SEQ + SEG.LEN with SYN and FIN counted; before, the text length
+   only).  The earlier behaviour is kept as `closed_reply_orig` / `tcp_demux_orig collide` (collide = "the
+   destination endpoint and (0.0.0.0, port) share a shard", always true for the address 0.0.0.0 itself) for
+   the two `_orig_refuted` theorems. *)
 From Elvis Require Import Model.Base Model.Demux.
 Local Open Scope Z_scope.
 
@@ -94,19 +94,22 @@ Definition tcp_open (s : tstate) (up : Z) (p : pair) : Z * tstate :=
       end
   end.
 
-(* tcb.rs:804-829, called with text_len = segment.text.len() (tcp.rs:154-158): SYN and FIN are NOT counted *)
+(* SEG.LEN of RFC 9293 3.4: text plus one for SYN plus one for FIN *)
+Definition seg_len (sg : seg) : Z :=
+  s_tlen sg + (if f_syn sg then 1 else 0) + (if f_fin sg then 1 else 0).
+
+(* tcb.rs:804-830, called with text_len = segment.text.len() (tcp.rs:158-163); the function adds SYN and
+   FIN itself (821-823): <SEQ=SEG.ACK><CTL=RST> or <SEQ=0><ACK=SEG.SEQ+SEG.LEN><CTL=RST,ACK>, RFC 9293 3.10.7.1 *)
 Definition closed_reply (sg : seg) : option seg :=
   if f_rst sg then None                                                    (* 811-814 *)
   else if f_ack sg then Some (mkSeg (s_dst sg) (s_src sg) FL_RST (s_ack sg) 0 0)          (* 816-817 *)
-  else Some (mkSeg (s_dst sg) (s_src sg) FL_RST_ACK 0 (wrap32 (s_seq sg + s_tlen sg)) 0). (* 818-822 *)
+  else Some (mkSeg (s_dst sg) (s_src sg) FL_RST_ACK 0 (wrap32 (s_seq sg + seg_len sg)) 0). (* 818-827 *)
 
-(* what RFC 9293 3.10.7.1 prescribes: ACK = SEG.SEQ + SEG.LEN, SEG.LEN counting SYN and FIN (3.4) *)
-Definition seg_len (sg : seg) : Z :=
-  s_tlen sg + (if f_syn sg then 1 else 0) + (if f_fin sg then 1 else 0).
-Definition rfc_closed_reply (sg : seg) : option seg :=
+(* before ba8dc528: SYN and FIN were not counted *)
+Definition closed_reply_orig (sg : seg) : option seg :=
   if f_rst sg then None
   else if f_ack sg then Some (mkSeg (s_dst sg) (s_src sg) FL_RST (s_ack sg) 0 0)
-  else Some (mkSeg (s_dst sg) (s_src sg) FL_RST_ACK 0 (wrap32 (s_seq sg + seg_len sg)) 0).
+  else Some (mkSeg (s_dst sg) (s_src sg) FL_RST_ACK 0 (wrap32 (s_seq sg + s_tlen sg)) 0).
 
 (* tcb.rs:831-904 *)
 Inductive lsres := LsIgnore | LsReply (r : seg) | LsCreate.
@@ -123,7 +126,7 @@ Inductive tdec :=
 | DListenCreate (up : Z)        (* 186-198: a session for (local = destination, remote = source) is inserted *)
 | DListenIgnore                 (* segment_arrives_listen returned None *)
 | DMissingProto (up : Z)        (* 190-192: the binding names a protocol the machine lacks; nothing inserted *)
-| DDeadlock                     (* 144 + 151: second `entry` on a shard this thread holds *)
+| DDeadlock                     (* only before b7a73ede: second `entry` on a shard this thread holds *)
 | DIpDrop                       (* ipv4.rs:230-236: no IPv4 binding for the destination address *)
 | DIpOther (up : Z).            (* the IPv4 binding names another upstream *)
 
@@ -137,27 +140,31 @@ Definition listen_branch (s : tstate) (sg : seg) (up : Z) : tdec * tstate :=
       else (DMissingProto up, s)
   end.
 
-(* tcp.rs:106-204 after the header has been parsed *)
-Definition tcp_demux (collide : bool) (s : tstate) (sg : seg) : tdec * tstate :=
+(* tcp.rs:106-204 after the header has been parsed.  `cr` = the closed-port reply function, `collide` = the
+   lock collision of the code before b7a73ede (false for the code as it is: `get` takes read locks only) *)
+Definition tcp_demux_gen (cr : seg -> option seg) (collide : bool) (s : tstate) (sg : seg) : tdec * tstate :=
   match sget (t_sess s) (s_dst sg, s_src sg) with                          (* 141 *)
   | Some up => (DSession up, s)                                            (* 142 *)
   | None =>
-      match tget (t_listen s) (s_dst sg) with                              (* 144 *)
-      | Some up => listen_branch s sg up                                   (* 145 *)
+      match tget (t_listen s) (s_dst sg) with                              (* 147 *)
+      | Some up => listen_branch s sg up                                   (* 148 *)
       | None =>
-          if collide then (DDeadlock, s)                                   (* 151 on the shard locked at 144 *)
-          else match tget (t_listen s) (ANY, snd (s_dst sg)) with          (* 147-151 *)
-               | Some up => listen_branch s sg up                          (* 152 *)
-               | None => (DClosed (closed_reply sg), s)                    (* 153-164 *)
+          if collide then (DDeadlock, s)
+          else match tget (t_listen s) (ANY, snd (s_dst sg)) with          (* 150-154 *)
+               | Some up => listen_branch s sg up                          (* 155 *)
+               | None => (DClosed (cr sg), s)                              (* 156-169 *)
                end
       end
   end.
 
+Definition tcp_demux : tstate -> seg -> tdec * tstate := tcp_demux_gen closed_reply false.
+Definition tcp_demux_orig (collide : bool) : tstate -> seg -> tdec * tstate := tcp_demux_gen closed_reply_orig collide.
+
 (* a TCP segment handed to the machine's tap: Ipv4::demux first *)
-Definition arrive (collide : bool) (s : tstate) (sg : seg) : tdec * tstate :=
+Definition arrive (s : tstate) (sg : seg) : tdec * tstate :=
   match tlookup (t_ip s) (fst (s_dst sg), TCP_PROTO) with
   | None => (DIpDrop, s)
-  | Some up => if up =? TCP_TID then tcp_demux collide s sg else (DIpOther up, s)
+  | Some up => if up =? TCP_TID then tcp_demux s sg else (DIpOther up, s)
   end.
 
 Definition reply_of (d : tdec) : option seg :=
@@ -180,7 +187,7 @@ Inductive ev :=
 | ESnd (k : nat)
 | EInj (k : nat)                                  (* the harness handed step k's segment to send_pci *)
 | EFrm (m : nat) (to : Z) (sg : seg)              (* link observer: machine m gave a frame to the link *)
-| EArr (m : nat) (from : Z) (sg : seg) (collide : bool)   (* the frame was handed to machine m's tap *)
+| EArr (m : nat) (from : Z) (sg : seg)            (* the frame was handed to machine m's tap *)
 | ENtf (m : nat) (app : Z) (p : pair)             (* NotifyType::NewConnection on an application *)
 | EByt (m : nat) (app : Z) (p : pair).            (* bytes handed to an application *)
 
@@ -195,8 +202,7 @@ Definition frame_eqb (a b : frame) : bool :=
 Record vstate := mkV {
   v_ms : list tstate;
   v_owed : list frame;      (* replies Tcp::demux handed to the IPv4 session, not yet seen on the link *)
-  v_inj : list frame;       (* injected segments not yet seen on the link *)
-  v_hung : bool             (* a machine blocked on its own lock: the (single-threaded) simulation is dead *)
+  v_inj : list frame        (* injected segments not yet seen on the link *)
 }.
 
 Definition dummy_t : tstate := mkT [] [] [] [] [].
@@ -211,48 +217,44 @@ Fixpoint upd {A} (l : list A) (n : nat) (x : A) : list A :=
 Definition link_to (to : Z) : Z := if to <? 0 then -3 else to.   (* send_pci(.., None) is logged as -3 *)
 
 Definition vstep (script : list step) (st : vstate) (e : ev) : option vstate :=
-  if v_hung st then None else
   match e with
   | ELis k code =>
       match nth_error script k with
       | Some (SListen m app ep) =>
           let (c, s') := tcp_listen (nth m (v_ms st) dummy_t) app ep in
-          if c =? code then Some (mkV (upd (v_ms st) m s') (v_owed st) (v_inj st) false) else None
+          if c =? code then Some (mkV (upd (v_ms st) m s') (v_owed st) (v_inj st)) else None
       | _ => None
       end
   | EOpn k code =>
       match nth_error script k with
       | Some (SOpen m app p) =>
           let (c, s') := tcp_open (nth m (v_ms st) dummy_t) app p in
-          if c =? code then Some (mkV (upd (v_ms st) m s') (v_owed st) (v_inj st) false) else None
+          if c =? code then Some (mkV (upd (v_ms st) m s') (v_owed st) (v_inj st)) else None
       | _ => None
       end
   | ESnd k => match nth_error script k with Some SSend => Some st | _ => None end
   | EInj k =>
       match nth_error script k with
-      | Some (SInject m to sg) => Some (mkV (v_ms st) (v_owed st) ((m, link_to to, sg) :: v_inj st) false)
+      | Some (SInject m to sg) => Some (mkV (v_ms st) (v_owed st) ((m, link_to to, sg) :: v_inj st))
       | _ => None
       end
   | EFrm m to sg =>
       match remove1 frame_eqb (m, to, sg) (v_inj st) with
-      | Some inj' => Some (mkV (v_ms st) (v_owed st) inj' false)
+      | Some inj' => Some (mkV (v_ms st) (v_owed st) inj')
       | None =>
           match sget (t_sess (nth m (v_ms st) dummy_t)) (s_src sg, s_dst sg) with
           | Some _ => Some st                                  (* traffic of a session: the TCB's business *)
           | None =>
               match remove1 frame_eqb (m, to, sg) (v_owed st) with
-              | Some owed' => Some (mkV (v_ms st) owed' (v_inj st) false)
+              | Some owed' => Some (mkV (v_ms st) owed' (v_inj st))
               | None => None
               end
           end
       end
-  | EArr m from sg collide =>
-      let (d, s') := arrive collide (nth m (v_ms st) dummy_t) sg in
+  | EArr m from sg =>
+      let (d, s') := arrive (nth m (v_ms st) dummy_t) sg in
       let owed' := match reply_of d with Some r => (m, from, r) :: v_owed st | None => v_owed st end in
-      match d with
-      | DDeadlock => Some (mkV (v_ms st) (v_owed st) (v_inj st) true)
-      | _ => Some (mkV (upd (v_ms st) m s') owed' (v_inj st) false)
-      end
+      Some (mkV (upd (v_ms st) m s') owed' (v_inj st))
   | ENtf m app p | EByt m app p =>
       match sget (t_sess (nth m (v_ms st) dummy_t)) p with
       | Some up => if up =? app then Some st else None
@@ -266,13 +268,9 @@ Fixpoint vrun (script : list step) (st : vstate) (tr : list ev) : option vstate 
   | e :: r => match vstep script st e with Some st' => vrun script st' r | None => None end
   end.
 
-(* verdict: 0 accept; 1 an event contradicts the model; 2 a reply or an injected frame never appeared;
-   3 the model predicts a deadlock but the simulation went on, or it hung without one *)
-Definition validate (script : list step) (ms : list tstate) (tr : list ev) (hung : bool) : Z :=
-  match vrun script (mkV ms [] [] false) tr with
+(* verdict: 0 accept; 1 an event contradicts the model; 2 a reply or an injected frame never appeared *)
+Definition validate (script : list step) (ms : list tstate) (tr : list ev) : Z :=
+  match vrun script (mkV ms [] []) tr with
   | None => 1
-  | Some st =>
-      if negb (Bool.eqb (v_hung st) hung) then 3
-      else if v_hung st then 0
-      else match v_owed st, v_inj st with [], [] => 0 | _, _ => 2 end
+  | Some st => match v_owed st, v_inj st with [], [] => 0 | _, _ => 2 end
   end.
